@@ -1201,9 +1201,12 @@ impl CraneliftCompiler {
     fn prepare_jump_blocks(&mut self, bcx: &mut FunctionBuilder, insn_ptr: usize, insn: &Insn) {
         let insn_ptr = insn_ptr as u32;
         let next_pc: u32 = insn_ptr + 1;
-        let target_pc: u32 = (insn_ptr as isize + insn.off as isize + 1)
-            .try_into()
-            .unwrap();
+        // Only jumps have a meaningful offset: EXIT (and TAIL_CALL) just end their block
+        let off = match insn.opc {
+            ebpf::EXIT | ebpf::TAIL_CALL => 0,
+            _ => insn.off as isize,
+        };
+        let target_pc: u32 = (insn_ptr as isize + off + 1).try_into().unwrap();
 
         // This is the fallthrough block
         let fallthrough_block = *self
